@@ -1,7 +1,7 @@
 //! C05: similarity, containment and angular similarity are exact on retained hashes.
 //!
 //! Request lines
-//!   sk a|b <scaled> <num> <ksize> <dna|protein|dayhoff|hp> <seed> <track 0|1> <mins> <abunds>
+//!   sk <x> <scaled> <num> <ksize> <dna|protein|dayhoff|hp> <seed> <track 0|1> <mins> <abunds>
 //!        builds the sketch in BOTH containers; answer = what the real objects hold
 //!   isz|isect|jac|jacx|jacv|ang|angin|angone|angzero  V|T ab|ba
 //!        (jacx = jac, answered on the Lean side by the exact integer model of binary64 division)
@@ -9,15 +9,34 @@
 //!   sim V|T ab|ba <ignore_abundance> <downsample>
 //!   cmp|cmpv sig|store|large sim|cont ab|ba        (Comparable impls of Signature / SigStore)
 //!   search sig|store sim|cont ab|ba <threshold as decimal f64 bits>
+//!   ffi jac|ang|ius <xy> ; ffi cc <xy> <downsample> ; ffi sim <xy> <ignore_abundance> <downsample>
+//!        the C API on `SourmashKmerMinHash` handles of the vector-backed sketches
+//!        (kmerminhash_jaccard / _angular_similarity / _intersection_union_size / _count_common /
+//!        _similarity); an error is read back through sourmash_err_get_last_code -> `err <Variant>`
+//!        and then cleared
+//! HISTORY ops (answer = what both real objects hold afterwards, `V:<mins>|<abunds> T:<mins>|<abunds>`):
+//!   addab <x> <h> <n>   add_hash_with_abundance on both containers
+//!   setab <x> <h> <n>   set_hash_with_abundance (vector); the tree type has no such method: remove_hash
+//!                       followed by add_hash_with_abundance
+//!   rm <x> <h> | clear <x> | merge <x> <y> (`V:err <Variant> T:err <Variant>` when refused)
+//!   md5 <x>             md5sum() of both containers (fills the caches)
+//!   clone <x> <z>       z := Clone of x (both containers); answer = what z holds
+//! Sketch names are single letters; the operand order of every comparison is a two-letter word
+//! (`ab`, `ba`, `cb`, …).
 //! Integers in decimal, every float as its 16-hex-digit bit pattern (`nan` for NaN).
 use sourmash::encodings::HashFunctions;
+use sourmash::ffi::minhash::{
+    kmerminhash_angular_similarity, kmerminhash_count_common, kmerminhash_intersection_union_size,
+    kmerminhash_jaccard, kmerminhash_similarity, SourmashKmerMinHash,
+};
+use sourmash::ffi::utils::{sourmash_err_clear, sourmash_err_get_last_code, ForeignObject};
 use sourmash::index::search::{search_minhashes, search_minhashes_containment};
 use sourmash::prelude::*;
 use sourmash::signature::{Signature, SigsTrait};
 use sourmash::sketch::minhash::{max_hash_for_scaled, KmerMinHash, KmerMinHashBTree};
 use sourmash::sketch::Sketch;
 use sourmash::storage::SigStore;
-use std::collections::BTreeSet;
+use std::collections::{BTreeMap, BTreeSet, HashMap};
 use verif_harness::*;
 
 // ------------------------------------------------------------------------------------ generator
@@ -214,6 +233,680 @@ fn shape(r: &mut Rng, sh: &str, p: &[u64]) -> (Vec<u64>, Vec<u64>) {
     }
 }
 
+/// the two sketches of a case: parameters (mostly compatible), hashes laid out in the overlap shape
+/// `sh`, abundances.  `hist` = the case continues with mutations: smaller sketches, abundances far
+/// from the 2^63 budget (the history generator keeps its own account of the squared sums).
+fn gen_pair(r: &mut Rng, sh: &str, thorough: bool, hist: bool) -> (Sk, Sk, bool) {
+    let hfs = ["dna", "protein", "dayhoff", "hp"];
+    // ---- parameters
+    let regime = r.below(100);
+    let (scaled, num) = if regime < 55 {
+        (*r.pick(&[1u64, 1, 2, 3, 10, 100, 1000, 10_000, 1 << 20, (1 << 31) - 1]), 0u32)
+    } else if regime < 95 {
+        (0u64, *r.pick(&[1u32, 2, 3, 4, 5, 8, 20, 50, 500]))
+    } else {
+        // both set: outside the property's parameter space, the model still has to follow
+        (*r.pick(&[1u64, 2, 1000]), *r.pick(&[3u32, 10, 500]))
+    };
+    let mut pa = Sk {
+        scaled,
+        num,
+        ksize: *r.pick(&[21u32, 31, 51]),
+        hf: "dna",
+        seed: 42,
+        track: r.chance(2, 3),
+        mins: vec![],
+        abunds: vec![],
+    };
+    let mut pb = pa.clone();
+    pb.track = if r.chance(3, 4) { pa.track } else { !pa.track };
+    // different scaled values for the downsample path (scaled-only sketches)
+    let mut ds_case = false;
+    if num == 0 && r.chance(1, 5) {
+        pb.scaled = *r.pick(&[1u64, 2, 3, 10, 100, 1000, 10_000, 1 << 20]);
+        ds_case = pb.scaled != pa.scaled;
+    }
+    // incompatibilities (order of the checks: ksize, hash function, max_hash, seed)
+    if r.chance(1, 9) {
+        for _ in 0..r.range(1, 2) {
+            match r.below(5) {
+                0 => pb.ksize = pa.ksize + 10,
+                1 => pb.hf = *r.pick(&hfs[1..]),
+                2 => {
+                    if num == 0 {
+                        pb.scaled = pa.scaled + 1
+                    } else {
+                        pb.scaled = 1000;
+                        pb.num = 0
+                    }
+                }
+                3 => pb.seed = 43,
+                // a different num is *not* an incompatibility for the code
+                _ => {
+                    if pb.num != 0 {
+                        pb.num = *r.pick(&[1u32, 2, 7, 500])
+                    }
+                }
+            }
+        }
+    }
+    // ---- hashes
+    let size = match r.below(20) {
+        0 => 0,
+        1 => 1,
+        2 => 2,
+        3..=12 => r.range(3, 16) as usize,
+        13..=18 if hist => r.range(3, 12) as usize,
+        _ if hist => r.range(17, 40) as usize,
+        13..=18 => r.range(17, 48) as usize,
+        _ => {
+            if thorough {
+                r.range(49, 400) as usize
+            } else {
+                r.range(49, 120) as usize
+            }
+        }
+    };
+    let p = pool(r, size, pa.limit(), pb.limit());
+    let (ma, mb) = shape(r, sh, &p);
+    let fit = |s: &Sk, m: Vec<u64>| -> Vec<u64> {
+        let lim = s.limit();
+        let mut m: Vec<u64> = m.into_iter().filter(|h| *h <= lim).collect();
+        if s.num != 0 {
+            m.truncate(s.num as usize);
+        }
+        m
+    };
+    pa.mins = fit(&pa, ma);
+    pb.mins = fit(&pb, mb);
+    // ---- abundances
+    let nmodes = if hist { 3 } else { 6 };
+    let mode = r.below(nmodes);
+    pa.abunds = gen_abunds(r, pa.mins.len(), mode);
+    let bmode = if r.chance(2, 3) { mode } else { r.below(nmodes) };
+    pb.abunds = gen_abunds(r, pb.mins.len(), bmode);
+    if pa.mins == pb.mins {
+        match r.below(4) {
+            // identical abundance vectors: the cosine is 1
+            0 | 1 => pb.abunds = pa.abunds.clone(),
+            // parallel, not equal
+            2 => {
+                if pa.abunds.iter().all(|x| *x < 1 << 20) {
+                    pb.abunds = pa.abunds.iter().map(|x| x * 3).collect()
+                }
+            }
+            _ => {}
+        }
+    }
+    // zero abundances (reachable through set_hash_with_abundance / conversion)
+    if pa.track && r.chance(1, 25) {
+        for x in pa.abunds.iter_mut() {
+            if r.chance(1, 2) {
+                *x = 0
+            }
+        }
+    }
+    if pb.track && r.chance(1, 40) {
+        for x in pb.abunds.iter_mut() {
+            *x = 0
+        }
+    }
+    (pa, pb, ds_case)
+}
+
+fn ffi_block(o: &mut Out, r: &mut Rng, x: char, y: char, ds: bool, rich: bool) {
+    for (p, q) in [(x, y), (y, x)] {
+        o.op(&format!("ffi ius {}{}", p, q));
+        o.op(&format!("ffi ang {}{}", p, q));
+        o.op(&format!("ffi sim {}{} 0 0", p, q));
+        o.op(&format!("ffi cc {}{} 0", p, q));
+        if rich || r.chance(1, 3) {
+            o.op(&format!("ffi jac {}{}", p, q));
+            o.op(&format!("ffi sim {}{} 1 0", p, q));
+        }
+        if ds || r.chance(1, 6) {
+            o.op(&format!("ffi sim {}{} {} 1", p, q, r.below(2)));
+            o.op(&format!("ffi cc {}{} 1", p, q));
+        }
+    }
+}
+
+fn shape_case(r: &mut Rng, o: &mut Out, sh: &str, thorough: bool) {
+    let (pa, pb, ds_case) = gen_pair(r, sh, thorough, false);
+    o.case(sh);
+    o.op(&pa.line("a"));
+    o.op(&pb.line("b"));
+    // ---- operations: both containers, both orders
+    for c in ["V", "T"] {
+        for ord in ["ab", "ba"] {
+            o.op(&format!("isz {} {}", c, ord));
+            if r.chance(1, 3) {
+                o.op(&format!("isect {} {}", c, ord));
+            }
+            o.op(&format!("cc {} {} 0", c, ord));
+            o.op(&format!("jac {} {}", c, ord));
+            o.op(&format!("jacx {} {}", c, ord));
+            o.op(&format!("jacv {} {}", c, ord));
+            o.op(&format!("ang {} {}", c, ord));
+            o.op(&format!("angin {} {}", c, ord));
+            o.op(&format!("angone {} {}", c, ord));
+            o.op(&format!("angzero {} {}", c, ord));
+            for ign in [0, 1] {
+                o.op(&format!("sim {} {} {} 0", c, ord, ign));
+                if ds_case || r.chance(1, 4) {
+                    o.op(&format!("sim {} {} {} 1", c, ord, ign));
+                }
+            }
+            if ds_case || r.chance(1, 4) {
+                o.op(&format!("cc {} {} 1", c, ord));
+            }
+        }
+    }
+    // ---- Comparable impls and the search predicates
+    let sa: BTreeSet<u64> = pa.mins.iter().cloned().collect();
+    let sb: BTreeSet<u64> = pb.mins.iter().cloned().collect();
+    let common = sa.intersection(&sb).count() as f64;
+    let union = sa.union(&sb).count().max(1) as f64;
+    for ord in ["ab", "ba"] {
+        for kind in ["sig", "store"] {
+            for which in ["sim", "cont"] {
+                o.op(&format!("cmp {} {} {}", kind, which, ord));
+                o.op(&format!("cmpv {} {} {}", kind, which, ord));
+                // thresholds at, just below and just above the exact value, and a random one
+                let size = if ord == "ab" { sa.len() } else { sb.len() }.max(1) as f64;
+                let exact = if which == "sim" { common / union } else { common / size };
+                let t = match r.below(5) {
+                    0 => exact,
+                    1 => f64::from_bits(exact.to_bits().saturating_sub(1)),
+                    2 => f64::from_bits(exact.to_bits() + 1),
+                    3 => 0.0,
+                    _ => r.below(1001) as f64 / 1000.0,
+                };
+                o.op(&format!("search {} {} {} {}", kind, which, ord, t.to_bits()));
+            }
+        }
+        if r.chance(1, 50) {
+            o.op(&format!("cmp large sim {}", ord));
+        }
+    }
+    ffi_block(o, r, 'a', 'b', ds_case, true);
+}
+
+// ---------------------------------------------------------------- histories (generator side)
+
+/// what the generator believes one container of a sketch holds (only used to pick interesting
+/// operands — a present hash, the largest hash — and to keep every squared sum and dot product
+/// below 2^63; the answers never depend on it)
+#[derive(Clone)]
+struct Sim {
+    p: Sk,
+    tree: bool,
+    track: bool,
+    m: BTreeMap<u64, u64>,
+}
+
+impl Sim {
+    fn new(p: &Sk, tree: bool) -> Sim {
+        let mut m = BTreeMap::new();
+        for (i, h) in p.mins.iter().enumerate() {
+            m.insert(*h, if p.track { p.abunds[i] } else { 1 });
+        }
+        Sim { p: p.clone(), tree, track: p.track, m }
+    }
+    fn add(&mut self, h: u64, n: u64) {
+        if (self.p.scaled != 0 && h > self.p.limit()) || (self.p.scaled == 0 && self.p.num == 0) {
+            return;
+        }
+        if n == 0 {
+            // vector: remove_hash; tree: "well, don't add it"
+            if !self.tree {
+                self.m.remove(&h);
+            }
+            return;
+        }
+        *self.m.entry(h).or_insert(0) += n;
+        if self.p.num != 0 && self.m.len() > self.p.num as usize {
+            let last = *self.m.keys().next_back().unwrap();
+            self.m.remove(&last);
+        }
+    }
+    fn set(&mut self, h: u64, n: u64) {
+        if self.tree {
+            self.m.remove(&h);
+            self.add(h, n);
+        } else if self.m.contains_key(&h) {
+            self.m.insert(h, n);
+        } else {
+            self.add(h, n);
+        }
+    }
+    fn compatible(&self, o: &Sim) -> bool {
+        self.p.ksize == o.p.ksize && self.p.hf == o.p.hf && self.p.limit() == o.p.limit() && self.p.seed == o.p.seed
+    }
+    fn merge(&mut self, o: &Sim) {
+        if !self.compatible(o) {
+            return;
+        }
+        for (h, n) in &o.m {
+            *self.m.entry(*h).or_insert(0) += *n;
+        }
+        while self.p.num != 0 && self.m.len() > self.p.num as usize {
+            let last = *self.m.keys().next_back().unwrap();
+            self.m.remove(&last);
+        }
+        self.track = self.track && o.track;
+    }
+    fn sumsq(&self) -> u128 {
+        if !self.track {
+            return 0;
+        }
+        self.m.values().map(|x| (*x as u128) * (*x as u128)).sum()
+    }
+}
+
+#[derive(Clone)]
+struct SimPair {
+    v: Sim,
+    t: Sim,
+}
+
+#[derive(Clone)]
+enum Mut {
+    Add(char, u64, u64),
+    Set(char, u64, u64),
+    Rm(char, u64),
+    Merge(char, char),
+    Clear(char),
+    Md5(char),
+    Clone(char, char),
+}
+
+impl Mut {
+    fn line(&self) -> String {
+        match self {
+            Mut::Add(x, h, n) => format!("addab {} {} {}", x, h, n),
+            Mut::Set(x, h, n) => format!("setab {} {} {}", x, h, n),
+            Mut::Rm(x, h) => format!("rm {} {}", x, h),
+            Mut::Merge(x, y) => format!("merge {} {}", x, y),
+            Mut::Clear(x) => format!("clear {}", x),
+            Mut::Md5(x) => format!("md5 {}", x),
+            Mut::Clone(x, z) => format!("clone {} {}", x, z),
+        }
+    }
+}
+
+struct World {
+    s: BTreeMap<char, SimPair>,
+}
+
+impl World {
+    fn apply(&mut self, m: &Mut) {
+        match m {
+            Mut::Add(x, h, n) => {
+                let e = self.s.get_mut(x).unwrap();
+                e.v.add(*h, *n);
+                e.t.add(*h, *n);
+            }
+            Mut::Set(x, h, n) => {
+                let e = self.s.get_mut(x).unwrap();
+                e.v.set(*h, *n);
+                e.t.set(*h, *n);
+            }
+            Mut::Rm(x, h) => {
+                let e = self.s.get_mut(x).unwrap();
+                e.v.m.remove(h);
+                e.t.m.remove(h);
+            }
+            Mut::Merge(x, y) => {
+                let o = self.s.get(y).unwrap().clone();
+                let e = self.s.get_mut(x).unwrap();
+                e.v.merge(&o.v);
+                e.t.merge(&o.t);
+            }
+            Mut::Clear(x) => {
+                let e = self.s.get_mut(x).unwrap();
+                e.v.m.clear();
+                e.t.m.clear();
+            }
+            Mut::Md5(_) => {}
+            Mut::Clone(x, z) => {
+                let e = self.s.get(x).unwrap().clone();
+                self.s.insert(*z, e);
+            }
+        }
+    }
+    /// every squared sum (hence, by Cauchy-Schwarz, every dot product) stays below 2^62
+    fn within_budget(&self) -> bool {
+        self.s.values().all(|e| e.v.sumsq() < (1u128 << 62) && e.t.sumsq() < (1u128 << 62))
+    }
+    /// emit the mutation unless it would leave the u64 budget of the property's quantifier
+    fn emit(&mut self, o: &mut Out, m: Mut) -> bool {
+        let saved = self.s.clone();
+        self.apply(&m);
+        if self.within_budget() {
+            o.op(&m.line());
+            true
+        } else {
+            self.s = saved;
+            false
+        }
+    }
+}
+
+/// the comparisons that are repeated after every mutation: both containers, both operand orders,
+/// and the C API
+fn cmp_block(o: &mut Out, r: &mut Rng, x: char, y: char, ds: bool) {
+    for c in ["V", "T"] {
+        for (p, q) in [(x, y), (y, x)] {
+            o.op(&format!("isz {} {}{}", c, p, q));
+            o.op(&format!("cc {} {}{} 0", c, p, q));
+            o.op(&format!("jac {} {}{}", c, p, q));
+            o.op(&format!("ang {} {}{}", c, p, q));
+            o.op(&format!("sim {} {}{} 0 0", c, p, q));
+            match r.below(4) {
+                0 => o.op(&format!("jacv {} {}{}", c, p, q)),
+                1 => o.op(&format!("angone {} {}{}", c, p, q)),
+                2 => o.op(&format!("angzero {} {}{}", c, p, q)),
+                _ => o.op(&format!("sim {} {}{} 1 0", c, p, q)),
+            }
+            if ds {
+                o.op(&format!("sim {} {}{} {} 1", c, p, q, r.below(2)));
+            }
+        }
+    }
+    ffi_block(o, r, x, y, ds, false);
+    if r.chance(1, 3) {
+        let kind = *r.pick(&["sig", "store"]);
+        let which = *r.pick(&["sim", "cont"]);
+        o.op(&format!("cmp {} {} {}{}", kind, which, x, y));
+        o.op(&format!("cmpv {} {} {}{}", kind, which, y, x));
+    }
+}
+
+fn small_bump(r: &mut Rng) -> u64 {
+    match r.below(10) {
+        0..=4 => 1,
+        5..=7 => r.range(2, 9),
+        8 => 1 << r.range(4, 20),
+        _ => r.bits(24).max(1),
+    }
+}
+
+/// one mutation step on sketch `x` (a few request lines); the comparison block follows it
+fn mutate(r: &mut Rng, o: &mut Out, w: &mut World, x: char, y: char) {
+    let cur = w.s[&x].v.clone();
+    let present: Vec<u64> = cur.m.keys().cloned().collect();
+    let largest = present.last().cloned();
+    let lim = cur.p.limit();
+    let fresh = |r: &mut Rng| -> u64 {
+        match r.below(6) {
+            0 => present.first().map(|h| h.saturating_sub(1 + r.below(3))).unwrap_or(0),
+            1 => largest.map(|h| h.saturating_add(1 + r.below(3))).unwrap_or(5).min(lim),
+            2 => lim.saturating_sub(r.below(3)),
+            3 => lim.saturating_add(1 + r.below(3)),
+            4 => r.below(3 * present.len() as u64 + 4),
+            _ => r.bits(64).min(lim),
+        }
+    };
+    // fill the caches first, most of the time: a forgotten invalidation only shows afterwards
+    if r.chance(2, 3) {
+        w.emit(o, Mut::Md5(x));
+    }
+    let kind = r.below(14);
+    match (kind, present.is_empty()) {
+        // abundance bump of a hash that is already there (the hash set does not change)
+        (0..=2, false) => {
+            let h = *r.pick(&present);
+            w.emit(o, Mut::Add(x, h, small_bump(r)));
+            if r.chance(1, 3) {
+                let h = *r.pick(&present);
+                w.emit(o, Mut::Add(x, h, 1));
+            }
+        }
+        // overwrite the abundance of a present hash
+        (3..=4, false) => {
+            let h = *r.pick(&present);
+            let n = match r.below(8) {
+                0 => 0,
+                1 => 1 << 30,
+                _ => small_bump(r),
+            };
+            w.emit(o, Mut::Set(x, h, n));
+        }
+        // re-add the largest hash
+        (5, false) => {
+            w.emit(o, Mut::Add(x, largest.unwrap(), small_bump(r)));
+        }
+        // remove, (compare,) re-add
+        (6..=7, false) => {
+            let h = if r.chance(1, 3) { largest.unwrap() } else { *r.pick(&present) };
+            w.emit(o, Mut::Rm(x, h));
+            if r.chance(1, 2) {
+                cmp_block(o, r, x, y, false);
+            }
+            w.emit(o, Mut::Add(x, h, small_bump(r)));
+        }
+        // a hash that is not there yet (below the smallest, above the largest, around the ceiling)
+        (8..=9, _) | (0..=7, true) => {
+            let h = fresh(r);
+            if r.chance(1, 2) {
+                w.emit(o, Mut::Add(x, h, small_bump(r)));
+            } else {
+                w.emit(o, Mut::Set(x, h, small_bump(r)));
+            }
+        }
+        (10, _) => {
+            w.emit(o, Mut::Merge(x, y));
+        }
+        (11, _) => {
+            w.emit(o, Mut::Clear(x));
+            if r.chance(2, 3) {
+                for h in present.iter().take(r.range(1, 3) as usize) {
+                    w.emit(o, Mut::Add(x, *h, small_bump(r)));
+                }
+            }
+        }
+        // abundance 0: the vector type removes, the tree type ignores
+        (12, _) => {
+            let h = if present.is_empty() || r.chance(1, 4) { fresh(r) } else { *r.pick(&present) };
+            w.emit(o, Mut::Add(x, h, 0));
+        }
+        // make x hold exactly what y holds (equal sketches reached through a history)
+        _ => {
+            let other = w.s[&y].v.clone();
+            w.emit(o, Mut::Clear(x));
+            for (h, n) in other.m.iter().take(24) {
+                w.emit(o, Mut::Add(x, *h, (*n).max(1)));
+            }
+        }
+    }
+}
+
+/// comparison -> mutation -> the same comparison again (2-4 rounds), then a clone of the mutated
+/// sketch compared in its place
+fn history_case(r: &mut Rng, o: &mut Out, sh: &str, thorough: bool) {
+    let (pa, pb, ds_case) = gen_pair(r, sh, thorough, true);
+    o.case(&format!("history-{}", sh));
+    o.op(&pa.line("a"));
+    o.op(&pb.line("b"));
+    let mut w = World { s: BTreeMap::new() };
+    w.s.insert('a', SimPair { v: Sim::new(&pa, false), t: Sim::new(&pa, true) });
+    w.s.insert('b', SimPair { v: Sim::new(&pb, false), t: Sim::new(&pb, true) });
+    cmp_block(o, r, 'a', 'b', ds_case);
+    let rounds = r.range(1, 3);
+    for _ in 0..rounds {
+        let (x, y) = if r.chance(2, 3) { ('a', 'b') } else { ('b', 'a') };
+        mutate(r, o, &mut w, x, y);
+        cmp_block(o, r, 'a', 'b', ds_case);
+    }
+    if r.chance(1, 2) {
+        // a copy taken after the comparisons must behave like the original
+        let x = if r.chance(2, 3) { 'a' } else { 'b' };
+        let y = if x == 'a' { 'b' } else { 'a' };
+        w.emit(o, Mut::Clone(x, 'c'));
+        if r.chance(1, 2) {
+            // ... also after the original moved on
+            mutate(r, o, &mut w, x, y);
+        }
+        cmp_block(o, r, 'c', y, ds_case);
+        if r.chance(1, 3) {
+            cmp_block(o, r, 'c', x, false);
+        }
+    }
+}
+
+// ---------------------------------------------------------------- digest-colliding hash sets
+
+/// split a digit string into a strictly increasing list of numbers without leading zeros
+fn split_digits(r: &mut Rng, digits: &[u8]) -> Option<Vec<u64>> {
+    let mut out: Vec<u64> = vec![];
+    let mut i = 0;
+    while i < digits.len() {
+        let rest = digits.len() - i;
+        let prev_len = out.last().map(|x| x.to_string().len()).unwrap_or(1);
+        // the next number has at least as many digits as the previous one
+        let len = if r.chance(1, 4) { rest } else { (prev_len + r.below(3) as usize).min(rest) };
+        let len = len.min(19);
+        if digits[i] == 0 && len > 1 {
+            return None;
+        }
+        let mut x: u64 = 0;
+        for d in &digits[i..i + len] {
+            x = x * 10 + *d as u64;
+        }
+        if let Some(p) = out.last() {
+            if x <= *p {
+                return None;
+            }
+        }
+        out.push(x);
+        i += len;
+    }
+    Some(out)
+}
+
+const CONCAT_FIXED: &[(&[u64], &[u64])] = &[
+    (&[1, 23], &[123]),
+    (&[7, 12, 34], &[7, 1234]),
+    // same digits, different order of the renderings: the digests differ
+    (&[3, 12], &[1, 23]),
+    (&[12, 34], &[1, 234]),
+    (&[1, 2, 34], &[1234]),
+    (&[12, 3500], &[1, 23, 500]),
+    (&[5, 60, 700], &[5, 60, 700]),
+    (&[5, 60, 700], &[5, 61, 700]),
+    (&[1, 10], &[110]),
+    (&[0, 1], &[1]),
+];
+
+/// two DIFFERENT hash sets whose sorted decimal renderings concatenate to the same digit string
+/// (md5sum() and hence `==` cannot tell them apart), or equal sets with different abundances
+fn concat_case(r: &mut Rng, o: &mut Out) {
+    let mut pair: Option<(Vec<u64>, Vec<u64>)> = None;
+    let style = r.below(10);
+    if style < 3 {
+        let (a, b) = *r.pick(CONCAT_FIXED);
+        pair = Some((a.to_vec(), b.to_vec()));
+    } else if style < 9 {
+        for _ in 0..200 {
+            let len = r.range(3, 14) as usize;
+            let digits: Vec<u8> = (0..len).map(|_| if r.chance(1, 12) { 0 } else { r.range(1, 9) as u8 }).collect();
+            if digits[0] == 0 {
+                continue;
+            }
+            if let (Some(a), Some(b)) = (split_digits(r, &digits), split_digits(r, &digits)) {
+                if a != b {
+                    pair = Some((a, b));
+                    break;
+                }
+            }
+        }
+    }
+    // equal sets (style 9, or nothing found)
+    let equal_sets = pair.is_none();
+    let (ma, mb) = pair.unwrap_or_else(|| {
+        let n = r.range(1, 8) as usize;
+        let mut s = BTreeSet::new();
+        while s.len() < n {
+            s.insert(r.below(50));
+        }
+        let v: Vec<u64> = s.into_iter().collect();
+        (v.clone(), v)
+    });
+    let need = ma.len().max(mb.len()) as u32;
+    let top = *ma.iter().chain(mb.iter()).max().unwrap();
+    let (scaled, num) = match r.below(8) {
+        0..=2 => (1u64, 0u32),
+        3 => (if top <= max_hash_for_scaled(1000) { 1000 } else { 2 }, 0),
+        4 => (0, need),
+        5 => (0, need + 1),
+        6 => (0, 500),
+        _ => (0, (ma.len().min(mb.len()) as u32).max(1)),
+    };
+    let track_a = equal_sets || r.chance(1, 2);
+    let track_b = if r.chance(4, 5) { track_a } else { !track_a };
+    let mk = |r: &mut Rng, mins: &Vec<u64>, track: bool| -> Sk {
+        let mut s = Sk { scaled, num, ksize: 21, hf: "dna", seed: 42, track, mins: mins.clone(), abunds: vec![] };
+        let lim = s.limit();
+        s.mins.retain(|h| *h <= lim);
+        if num != 0 {
+            s.mins.truncate(num as usize);
+        }
+        let mode = r.below(3);
+        s.abunds = gen_abunds(r, s.mins.len(), mode);
+        s
+    };
+    let pa = mk(r, &ma, track_a);
+    let mut pb = mk(r, &mb, track_b);
+    if equal_sets && pa.abunds == pb.abunds && !pb.abunds.is_empty() {
+        let i = r.below(pb.abunds.len() as u64) as usize;
+        pb.abunds[i] += 1 + r.below(5);
+    }
+    o.case(if equal_sets { "equal-sets-different-abundances" } else { "same-digit-string" });
+    o.op(&pa.line("a"));
+    o.op(&pb.line("b"));
+    if r.chance(1, 2) {
+        o.op("md5 a");
+        o.op("md5 b");
+    }
+    for c in ["V", "T"] {
+        for ord in ["ab", "ba"] {
+            o.op(&format!("isz {} {}", c, ord));
+            o.op(&format!("isect {} {}", c, ord));
+            o.op(&format!("cc {} {} 0", c, ord));
+            o.op(&format!("jac {} {}", c, ord));
+            o.op(&format!("jacv {} {}", c, ord));
+            o.op(&format!("ang {} {}", c, ord));
+            o.op(&format!("angone {} {}", c, ord));
+            o.op(&format!("angzero {} {}", c, ord));
+            o.op(&format!("sim {} {} 0 0", c, ord));
+            o.op(&format!("sim {} {} 1 0", c, ord));
+        }
+    }
+    for ord in ["ab", "ba"] {
+        let kind = *r.pick(&["sig", "store"]);
+        for which in ["sim", "cont"] {
+            o.op(&format!("cmp {} {} {}", kind, which, ord));
+            o.op(&format!("cmpv {} {} {}", kind, which, ord));
+            o.op(&format!("search {} {} {} {}", kind, which, ord, (0.5f64).to_bits()));
+        }
+    }
+    ffi_block(o, r, 'a', 'b', false, true);
+    // ... and once more after a history that leaves the hash sets as they are
+    if !pa.mins.is_empty() && r.chance(1, 2) {
+        let h = *r.pick(&pa.mins);
+        o.op(&format!("addab a {} {}", h, r.range(1, 4)));
+        for c in ["V", "T"] {
+            for ord in ["ab", "ba"] {
+                o.op(&format!("jac {} {}", c, ord));
+                o.op(&format!("ang {} {}", c, ord));
+                o.op(&format!("sim {} {} 0 0", c, ord));
+            }
+        }
+        ffi_block(o, r, 'a', 'b', false, false);
+    }
+}
+
 fn gen(a: &Args) {
     let mut r = Rng::new(a.seed);
     let mut o = Out::new();
@@ -223,175 +916,20 @@ fn gen(a: &Args) {
     } else if thorough {
         40_000
     } else {
-        3_000
+        2_700
     };
-    let hfs = ["dna", "protein", "dayhoff", "hp"];
+    let mut nshape = 0usize;
+    let mut nhist = 0usize;
     for ci in 0..ncases {
-        let sh = SHAPES[(ci % SHAPES.len() as u64) as usize];
-        // ---- parameters
-        let regime = r.below(100);
-        let (scaled, num) = if regime < 55 {
-            (*r.pick(&[1u64, 1, 2, 3, 10, 100, 1000, 10_000, 1 << 20, (1 << 31) - 1]), 0u32)
-        } else if regime < 95 {
-            (0u64, *r.pick(&[1u32, 2, 3, 4, 5, 8, 20, 50, 500]))
-        } else {
-            // both set: outside the property's parameter space, the model still has to follow
-            (*r.pick(&[1u64, 2, 1000]), *r.pick(&[3u32, 10, 500]))
-        };
-        let mut pa = Sk {
-            scaled,
-            num,
-            ksize: *r.pick(&[21u32, 31, 51]),
-            hf: "dna",
-            seed: 42,
-            track: r.chance(2, 3),
-            mins: vec![],
-            abunds: vec![],
-        };
-        let mut pb = pa.clone();
-        pb.track = if r.chance(3, 4) { pa.track } else { !pa.track };
-        // different scaled values for the downsample path (scaled-only sketches)
-        let mut ds_case = false;
-        if num == 0 && r.chance(1, 5) {
-            pb.scaled = *r.pick(&[1u64, 2, 3, 10, 100, 1000, 10_000, 1 << 20]);
-            ds_case = pb.scaled != pa.scaled;
-        }
-        // incompatibilities (order of the checks: ksize, hash function, max_hash, seed)
-        if r.chance(1, 9) {
-            for _ in 0..r.range(1, 2) {
-                match r.below(5) {
-                    0 => pb.ksize = pa.ksize + 10,
-                    1 => pb.hf = *r.pick(&hfs[1..]),
-                    2 => {
-                        if num == 0 {
-                            pb.scaled = pa.scaled + 1
-                        } else {
-                            pb.scaled = 1000;
-                            pb.num = 0
-                        }
-                    }
-                    3 => pb.seed = 43,
-                    // a different num is *not* an incompatibility for the code
-                    _ => {
-                        if pb.num != 0 {
-                            pb.num = *r.pick(&[1u32, 2, 7, 500])
-                        }
-                    }
-                }
+        match ci % 10 {
+            0 | 2 | 4 | 6 | 8 => {
+                shape_case(&mut r, &mut o, SHAPES[nshape % SHAPES.len()], thorough);
+                nshape += 1;
             }
-        }
-        // ---- hashes
-        let size = match r.below(20) {
-            0 => 0,
-            1 => 1,
-            2 => 2,
-            3..=12 => r.range(3, 16) as usize,
-            13..=18 => r.range(17, 48) as usize,
+            9 => concat_case(&mut r, &mut o),
             _ => {
-                if thorough {
-                    r.range(49, 400) as usize
-                } else {
-                    r.range(49, 120) as usize
-                }
-            }
-        };
-        let p = pool(&mut r, size, pa.limit(), pb.limit());
-        let (ma, mb) = shape(&mut r, sh, &p);
-        let fit = |s: &Sk, m: Vec<u64>| -> Vec<u64> {
-            let lim = s.limit();
-            let mut m: Vec<u64> = m.into_iter().filter(|h| *h <= lim).collect();
-            if s.num != 0 {
-                m.truncate(s.num as usize);
-            }
-            m
-        };
-        pa.mins = fit(&pa, ma);
-        pb.mins = fit(&pb, mb);
-        // ---- abundances
-        let mode = r.below(6);
-        pa.abunds = gen_abunds(&mut r, pa.mins.len(), mode);
-        let bmode = if r.chance(2, 3) { mode } else { r.below(6) };
-        pb.abunds = gen_abunds(&mut r, pb.mins.len(), bmode);
-        if pa.mins == pb.mins {
-            match r.below(4) {
-                // identical abundance vectors: the cosine is 1
-                0 | 1 => pb.abunds = pa.abunds.clone(),
-                // parallel, not equal
-                2 => {
-                    if pa.abunds.iter().all(|x| *x < 1 << 20) {
-                        pb.abunds = pa.abunds.iter().map(|x| x * 3).collect()
-                    }
-                }
-                _ => {}
-            }
-        }
-        // zero abundances (reachable through set_hash_with_abundance / conversion)
-        if pa.track && r.chance(1, 25) {
-            for x in pa.abunds.iter_mut() {
-                if r.chance(1, 2) {
-                    *x = 0
-                }
-            }
-        }
-        if pb.track && r.chance(1, 40) {
-            for x in pb.abunds.iter_mut() {
-                *x = 0
-            }
-        }
-        o.case(sh);
-        o.op(&pa.line("a"));
-        o.op(&pb.line("b"));
-        // ---- operations: both containers, both orders
-        for c in ["V", "T"] {
-            for ord in ["ab", "ba"] {
-                o.op(&format!("isz {} {}", c, ord));
-                if r.chance(1, 3) {
-                    o.op(&format!("isect {} {}", c, ord));
-                }
-                o.op(&format!("cc {} {} 0", c, ord));
-                o.op(&format!("jac {} {}", c, ord));
-                o.op(&format!("jacx {} {}", c, ord));
-                o.op(&format!("jacv {} {}", c, ord));
-                o.op(&format!("ang {} {}", c, ord));
-                o.op(&format!("angin {} {}", c, ord));
-                o.op(&format!("angone {} {}", c, ord));
-                o.op(&format!("angzero {} {}", c, ord));
-                for ign in [0, 1] {
-                    o.op(&format!("sim {} {} {} 0", c, ord, ign));
-                    if ds_case || r.chance(1, 4) {
-                        o.op(&format!("sim {} {} {} 1", c, ord, ign));
-                    }
-                }
-                if ds_case || r.chance(1, 4) {
-                    o.op(&format!("cc {} {} 1", c, ord));
-                }
-            }
-        }
-        // ---- Comparable impls and the search predicates
-        let sa: BTreeSet<u64> = pa.mins.iter().cloned().collect();
-        let sb: BTreeSet<u64> = pb.mins.iter().cloned().collect();
-        let common = sa.intersection(&sb).count() as f64;
-        let union = sa.union(&sb).count().max(1) as f64;
-        for ord in ["ab", "ba"] {
-            for kind in ["sig", "store"] {
-                for which in ["sim", "cont"] {
-                    o.op(&format!("cmp {} {} {}", kind, which, ord));
-                    o.op(&format!("cmpv {} {} {}", kind, which, ord));
-                    // thresholds at, just below and just above the exact value, and a random one
-                    let size = if ord == "ab" { sa.len() } else { sb.len() }.max(1) as f64;
-                    let exact = if which == "sim" { common / union } else { common / size };
-                    let t = match r.below(5) {
-                        0 => exact,
-                        1 => f64::from_bits(exact.to_bits().saturating_sub(1)),
-                        2 => f64::from_bits(exact.to_bits() + 1),
-                        3 => 0.0,
-                        _ => r.below(1001) as f64 / 1000.0,
-                    };
-                    o.op(&format!("search {} {} {} {}", kind, which, ord, t.to_bits()));
-                }
-            }
-            if r.chance(1, 50) {
-                o.op(&format!("cmp large sim {}", ord));
+                history_case(&mut r, &mut o, SHAPES[nhist % SHAPES.len()], thorough);
+                nhist += 1;
             }
         }
     }
@@ -406,8 +944,7 @@ struct Pair {
 
 #[derive(Default)]
 struct St {
-    a: Option<Pair>,
-    b: Option<Pair>,
+    sk: HashMap<String, Pair>,
 }
 
 fn hf_of(s: &str) -> HashFunctions {
@@ -495,38 +1032,164 @@ fn sig_of(s: Sketch) -> Signature {
     sig
 }
 
+/// the two operands named by a two-letter order word
+fn operands<'a>(st: &'a St, ord: &str) -> Option<(&'a Pair, &'a Pair)> {
+    if ord.len() != 2 || !ord.is_ascii() {
+        return None;
+    }
+    Some((st.sk.get(&ord[0..1])?, st.sk.get(&ord[1..2])?))
+}
+
+fn show_pair(p: &Pair) -> String {
+    format!("V:{} T:{}", show_sk(p.v.mins(), p.v.abunds()), show_sk(p.t.mins(), p.t.abunds()))
+}
+
+/// the mutating / cache-filling operations between comparisons; `None` = not one of them
+fn history_step(st: &mut St, ws: &[&str]) -> Option<String> {
+    if !matches!(ws[0], "addab" | "setab" | "rm" | "merge" | "clear" | "md5" | "clone") {
+        return None;
+    }
+    let nat = |i: usize| ws[i].parse::<u64>().unwrap();
+    if ws[0] == "merge" {
+        if ws[1] == ws[2] || !st.sk.contains_key(ws[2]) {
+            return Some("no-sketch".into());
+        }
+        let mut x = match st.sk.remove(ws[1]) {
+            Some(x) => x,
+            None => return Some("no-sketch".into()),
+        };
+        let y = &st.sk[ws[2]];
+        let rv = x.v.merge(&y.v);
+        let rt = x.t.merge(&y.t);
+        let show = |r: Result<(), sourmash::Error>, s: String| match r {
+            Ok(()) => s,
+            Err(e) => format!("err {:?}", e),
+        };
+        let r = format!(
+            "V:{} T:{}",
+            show(rv, show_sk(x.v.mins(), x.v.abunds())),
+            show(rt, show_sk(x.t.mins(), x.t.abunds()))
+        );
+        st.sk.insert(ws[1].to_string(), x);
+        return Some(r);
+    }
+    if ws[0] == "clone" {
+        let z = match st.sk.get(ws[1]) {
+            Some(x) => Pair { v: x.v.clone(), t: x.t.clone() },
+            None => return Some("no-sketch".into()),
+        };
+        let r = show_pair(&z);
+        st.sk.insert(ws[2].to_string(), z);
+        return Some(r);
+    }
+    let x = match st.sk.get_mut(ws[1]) {
+        Some(x) => x,
+        None => return Some("no-sketch".into()),
+    };
+    match ws[0] {
+        "addab" => {
+            x.v.add_hash_with_abundance(nat(2), nat(3));
+            x.t.add_hash_with_abundance(nat(2), nat(3));
+        }
+        "setab" => {
+            x.v.set_hash_with_abundance(nat(2), nat(3));
+            // no set_hash_with_abundance on the tree type
+            x.t.remove_hash(nat(2));
+            x.t.add_hash_with_abundance(nat(2), nat(3));
+        }
+        "rm" => {
+            x.v.remove_hash(nat(2));
+            x.t.remove_hash(nat(2));
+        }
+        "clear" => {
+            x.v.clear();
+            x.t.clear();
+        }
+        _ => return Some(format!("V:{} T:{}", x.v.md5sum(), x.t.md5sum())),
+    }
+    Some(show_pair(x))
+}
+
+fn code_name(c: u32) -> String {
+    match c {
+        1 => "Panic".into(),
+        2 => "Internal".into(),
+        101 => "MismatchKSizes".into(),
+        102 => "MismatchDNAProt".into(),
+        103 => "MismatchScaled".into(),
+        104 => "MismatchSeed".into(),
+        105 => "MismatchSignatureType".into(),
+        106 => "NonEmptyMinHash".into(),
+        107 => "MismatchNum".into(),
+        108 => "NeedsAbundanceTracking".into(),
+        109 => "CannotUpsampleScaled".into(),
+        n => format!("code{}", n),
+    }
+}
+
+/// the answer of a C API call: the error left in the thread-local slot (then cleared), else the value
+fn ffi_answer(v: String) -> String {
+    let c = unsafe { sourmash_err_get_last_code() } as u32;
+    if c != 0 {
+        unsafe { sourmash_err_clear() };
+        format!("err {}", code_name(c))
+    } else {
+        v
+    }
+}
+
+fn ffi_step(st: &St, ws: &[&str]) -> String {
+    let (x, y) = match operands(st, ws[2]) {
+        Some(p) => p,
+        None => return "no-sketch".into(),
+    };
+    let flag = |i: usize| ws[i] == "1";
+    unsafe {
+        sourmash_err_clear();
+        let px = SourmashKmerMinHash::from_ref(&x.v);
+        let py = SourmashKmerMinHash::from_ref(&y.v);
+        match ws[1] {
+            "jac" => ffi_answer(fbits(kmerminhash_jaccard(px, py))),
+            "ang" => ffi_answer(fbits(kmerminhash_angular_similarity(px, py))),
+            "sim" => ffi_answer(fbits(kmerminhash_similarity(px, py, flag(3), flag(4)))),
+            "cc" => {
+                let c = kmerminhash_count_common(px, py, flag(3));
+                ffi_answer(format!("{} {}", c, x.v.size()))
+            }
+            "ius" => {
+                let mut u: u64 = u64::MAX;
+                let c = kmerminhash_intersection_union_size(px, py, &mut u);
+                ffi_answer(format!("{} {}", c, u))
+            }
+            _ => "bad-op".into(),
+        }
+    }
+}
+
 fn step(st: &mut St, ws: &[&str]) -> String {
     if ws[0] == "case" {
         return "ok".into();
     }
     if ws[0] == "sk" {
         let p = build(ws);
-        let r = format!(
-            "V:{} T:{}",
-            show_sk(p.v.mins(), p.v.abunds()),
-            show_sk(p.t.mins(), p.t.abunds())
-        );
-        if ws[1] == "a" {
-            st.a = Some(p)
-        } else {
-            st.b = Some(p)
-        }
+        let r = show_pair(&p);
+        st.sk.insert(ws[1].to_string(), p);
         return r;
+    }
+    if let Some(r) = history_step(st, ws) {
+        return r;
+    }
+    if ws[0] == "ffi" {
+        return ffi_step(st, ws);
     }
     let ord_at = match ws[0] {
         "cmp" | "cmpv" => 3,
         "search" => 3,
         _ => 2,
     };
-    let (x, y) = match (&st.a, &st.b) {
-        (Some(a), Some(b)) => {
-            if ws[ord_at] == "ba" {
-                (b, a)
-            } else {
-                (a, b)
-            }
-        }
-        _ => return "no-sketch".into(),
+    let (x, y) = match operands(st, ws[ord_at]) {
+        Some(p) => p,
+        None => return "no-sketch".into(),
     };
     let tree = ws[1] == "T";
     let flag = |i: usize| ws[i] == "1";
